@@ -3,7 +3,7 @@
    OOpen/ORead*/OFinish|OClose, the part store's miss fill = POpen/ORead*/OFinish), so "for all histories" is
    "for all interleavings of concurrent operations at that granularity".  The reference semantics
    (get_sound, part_sound: latest completed Set / inner store content, or miss) is Spec/CacheSpec.v. *)
-From Verif Require Import Bytes Codec Cache CacheSpec CacheProofs.
+From Verif Require Import Bytes Codec Cache CacheSpec CacheProofs CachePartProofs.
 
 (* ---- the property for the generic cache, at full strength ---- *)
 Definition C19_get_sound_full : Prop :=
@@ -84,6 +84,32 @@ Theorem C19_part_partial_read_fs :
 Proof. split; [exact part_partial_unsound | exact part_partial_run]. Qed.
 Print Assumptions C19_part_partial_read_fs.
 
+(* what does hold for the part store, faults included.  For BOTH persistors, every eviction policy and limit and
+   every history in which each GetPart runs to its end (ReadAll+Close) or to its early Close before the next
+   operation starts (part_seq_op: PutPart, pre-existing parts, DeletePart, GetPart, and the fault steps: inner
+   reader failing after k bytes for every k, inner GetPart failing, inner PutPart / DeletePart failing, reader closed
+   after n bytes, PutPart whose cache Set fails in the persistor after j bytes):
+   every GetPart answers exactly what the inner store holds at that moment (get_ok, Spec/CacheSpec.v) — the stored
+   bytes, not-found, or, under a read fault, the k-byte prefix TOGETHER WITH the error; never a prefix without the
+   error, never stale or foreign bytes — no matter which faulted reads or writes happened before.
+   Excluded exactly: overlapping readers/fills (open findings C19-fs-inplace-partial, C19-stale-fill-after-delete)
+   and a persistor failure during the miss fill itself (finding C19-fill-store-error-hangs-reader, next theorem). *)
+Theorem C19_part_sound_partial :
+  forall (kd : pkind) (pl : policy) (maxpart : nat) (ops : list op) (rs : list res),
+    forallb part_seq_op ops = true ->
+    run ops (w_init kd pl maxpart) = Some rs ->
+    part_sound [] ops rs.
+Proof. exact part_sound_seq. Qed.
+Print Assumptions C19_part_sound_partial.
+
+(* the excluded fault: the cache persistor fails while the miss fill streams into it.  Cache.Set returns, the fill
+   goroutine ends, nobody closes the read end of the pipe, and the consumer's next non-empty Read blocks for ever *)
+Theorem C19_fill_store_error_hangs_reader :
+  run [PInner B"a" (content 1 10); POpenF 0 B"a" (FStoreFail 0); ORead 0 4] (w_init PMem EvictNothing 64)
+  = Some [ROk; ROpen B"s"; RHang].
+Proof. vm_compute. reflexivity. Qed.
+Print Assumptions C19_fill_store_error_hangs_reader.
+
 (* observation (not part of the property text): the configured size limit is exceeded although satisfiable —
    limit 10, Set a(5), Set b(3), Set a(8) leaves 11 bytes stored: the eviction pops a's own old heap entry *)
 Theorem C19_size_limit_exceeded :
@@ -100,4 +126,14 @@ Example C19_ex_nontrivial :
       (w_init PMem (LfuKeys 2) 64)
   = Some [ROk; ROk; ROk; RMiss; RVal (content 1 3); ROk; ROk; RVal (content 2 6); ROk;
           RMiss; RVal (content 2 6); RVal (content 3 2)].
+Proof. vm_compute. reflexivity. Qed.
+
+(* non-vacuity of the fault theorem: a read fault mid-stream reports prefix+error and leaves nothing cached; the
+   next GetPart serves the whole part; a failed inner put keeps the old value; a failed cache write is harmless *)
+Example C19_ex_faults :
+  run [PInner B"a" (content 1 10); PGetF B"a" (FReadFail 4); PGet B"a"; PPutFail B"a" (content 2 5); PGet B"a";
+       PPutStoreFail B"a" (content 3 8) 0; PGetClose B"a" 3; PGet B"a"; PDeleteFail B"a"; PDelete B"a"; PGet B"a"]
+      (w_init PFs (LfuSize 16) 64)
+  = Some [ROk; RValErr (firstn 4 (content 1 10)); RVal (content 1 10); RErr; RVal (content 1 10);
+          ROk; RVal (firstn 3 (content 3 8)); RVal (content 3 8); RErr; ROk; RNotFound].
 Proof. vm_compute. reflexivity. Qed.
